@@ -18,6 +18,8 @@ from ..srcmodel import (Unrecognised, AnchorMissing, unparse, call_name, kwarg, 
 from ..symx import Translator, decide_equal, counterpoint
 import re
 
+from .. import hiddenstate
+
 LEVEL = 'proof'
 EXPLANATION = ('static proof obligations over the parsed source: manual gradients vs sympy derivatives, autograd discipline, '
                'CObs formulas, configuration-number alignment and rescaling formulas of derived_observable; numerical '
@@ -915,6 +917,10 @@ def run(ctx):
     ctx.floor('derived_observable sites without man_grad in linalg.py', n_lin, 10)
     ctx.info['man_grad_sites'] = n_mg
     ctx.info['autograd_sites'] = n_ag + n_lin
+    ctx.rule('C01-D8', 'no hidden state shared between calls in the propagation code')
+    for mn_ in ('obs', 'linalg', 'covobs'):
+        mm_ = ctx.repo.mod(mn_)
+        ctx.guarded('C01-D8', mn_ + '@hidden-state', hiddenstate.check, ctx, 'C01-D8', mm_, [q for q, _ in mm_.functions() if q.count('.') <= 1], 'the derived observable')
     ctx.guarded('C01-D3', 'obs.py:Obs@naming', naming, ctx, obs)
     ctx.guarded('C01-D4', 'obs.py:CObs@formulas', cobs_formulas, ctx, obs)
     ctx.guarded('C01-D5', 'obs.py:_expand_deltas_for_merge', expand_for_merge, ctx, obs)
